@@ -37,6 +37,7 @@ OBLIGATIONS = [
     "Grog.C20.old_paths_duplicate_witness",
     "Grog.C20.old_print_duplicate_witness",
     "Grog.C20.inverse_printed",
+    "Grog.C20.changes_exact",
     "Grog.C20.printedDistinct_of_labels",
 ]
 ASSUMPTIONS = [
@@ -246,6 +247,7 @@ def cli_workspace(ctx, grog, rng, w, nontrivial, stats):
             nontrivial.add((G_key(req), q["k"], q.get("t"), q.get("v"), tuple(q.get("files", ()))))
     if not m.get("ok") or any(o is not None and o != mo for o, mo in zip(outs, m.get("out", []))):
         bad.append((req, {"ok": True, "out": outs}, m))
+    bad += cli_changes(ctx, grog, rng, ws, env, req, nodes, es, inputs, stats, nontrivial)
     # determinism: the graph is rebuilt from Go maps on every invocation; the same query must print the same lines
     for (args, cwd), first in list(zip(clis, outs))[:4]:
         for _ in range(2):
@@ -268,6 +270,56 @@ def cli_workspace(ctx, grog, rng, w, nontrivial, stats):
                     ctx.violation("deps -t and rdeps -t are not mutual inverses", {"kind": "oracle", "oracle": "inverse", "request": req, "a": G.label_str(nodes[a]),
                                   "b": G.label_str(nodes[b])}, signature="deps-rdeps-not-inverse")
         ctx.coverage["evaluations"] += len(nodes) ** 2
+    return bad
+
+
+def cli_changes(ctx, grog, rng, ws, env, req, nodes, es, inputs, stats, nontrivial):
+    """`grog changes --since=HEAD [--dependents=transitive]` in a scratch git repository: edit one or two files, compare with the
+    model (`changesCmd`) and with the reference (owners + their target descendants, filtered)."""
+    import subprocess
+    genv = dict(env, GIT_CONFIG_GLOBAL="/dev/null", GIT_CONFIG_SYSTEM="/dev/null", GIT_AUTHOR_NAME="v", GIT_AUTHOR_EMAIL="v@v",
+                GIT_COMMITTER_NAME="v", GIT_COMMITTER_EMAIL="v@v")
+    with open(os.path.join(ws, "unowned.txt"), "w") as fh:
+        fh.write("nobody's input\n")
+    for cmd in (["git", "init", "-q"], ["git", "add", "-A"], ["git", "commit", "-q", "-m", "x"]):
+        if subprocess.run(cmd, cwd=ws, env=genv, capture_output=True).returncode != 0:
+            ctx.notes.append("git not usable in the scratch workspace: `changes` not compared")
+            return []
+    owned = sorted({os.path.normpath(os.path.join(nodes[i]["pkg"], f)) for i, fl in inputs.items() for f in fl})
+    bad = []
+    for trial in range(2):
+        files = rng.sample(owned, min(len(owned), rng.randint(1, 2))) + (["unowned.txt"] if rng.random() < 0.3 else [])
+        for f in files:
+            with open(os.path.join(ws, f), "a") as fh:
+                fh.write("edited\n")
+        tr = rng.random() < 0.7
+        args = ["changes", "--since=HEAD", "--dependents=" + ("transitive" if tr else "none"), "--target-type=" + req["type"]] + cli_flags(req)
+        rc, lines, err, dt = G.run_grog(grog, args, ws, genv, timeout=60)
+        subprocess.run(["git", "checkout", "-q", "--", "."], cwd=ws, env=genv, capture_output=True)
+        stats["commands"] += 1
+        ctx.coverage["evaluations"] += 1
+        q = {"k": "changes", "files": files, "t": tr}
+        if rc != 0:
+            ctx.violation("`grog changes` failed in a generated workspace", {"kind": "correspondence", "correspondence": "CLI changes in generated workspace",
+                          "cli": args, "rc": rc, "stderr": err[-1500:], "request": dict(req, q=[q])}, found_input=False)
+            continue
+        owners = {i for i, n in enumerate(nodes) if n["target"] and any(os.path.normpath(os.path.join(n["pkg"], f)) in files for f in inputs.get(i, []))}
+        res = set(owners)
+        if tr:
+            for o in owners:
+                res |= {d for d in G.reach(es, o, forward=True) if nodes[d]["target"]}
+        exp = sorted(G.label_str(nodes[i]) for i in res
+                     if G.ref_matches_filters(nodes[i], [], req["tags"], req["exclude"], req["type"]) and G.ref_platform_ok(nodes[i], req["platform"], req["all_platforms"]))
+        if lines != exp:
+            ctx.violation("`changes` does not print exactly the owners of the changed files" + (" and their dependants" if tr else ""),
+                          {"kind": "oracle", "oracle": "changes reference", "request": dict(req, q=[q]), "cli": args, "printed": lines, "expected": exp},
+                          signature="changes-wrong-set")
+        m = ctx.model([dict(req, q=[q])])[0]
+        if not m.get("ok") or m["out"][0] != lines:
+            bad.append((dict(req, q=[q]), {"ok": True, "out": [lines]}, m))
+        stats["changes_lines"] = stats.get("changes_lines", 0) + len(lines)
+        if len(lines) >= 2:
+            nontrivial.add((G_key(req), "changes", tr, tuple(files)))
     return bad
 
 
